@@ -64,9 +64,6 @@ Proof.
 Qed.
 
 (* ------------------------------------------------------------------ invariants *)
-Definition exiting_nodrain (st : cstate S M) : bool :=
-  match st with CDone false => true | CSend _ (AExit false) => true | _ => false end.
-Definition has_afault (st : cstate S M) : bool := match st with CSend _ AFault => true | _ => false end.
 
 (* a cell leaves (or has left) without draining only once its upstream has closed *)
 Fixpoint chain_ok (l : list cellT) : Prop :=
@@ -84,7 +81,7 @@ Definition head_ok (l : list cellT) : Prop :=
   end.
 Definition nodes_good (l : list cellT) : Prop := Forall (fun c => good_node (c_node c)) l.
 Definition nodes_nofault (l : list cellT) : Prop := Forall (fun c => nofault_node (c_node c)) l.
-Definition no_afault (l : list cellT) : Prop := Forall (fun c => has_afault (c_st c) = false) l.
+Definition no_afault (l : list cellT) : Prop := Forall cell_ok l.
 
 Lemma nodes_pred_step : forall (P : node S M -> Prop) canc (l : list cellT) canc' k l',
   lstep canc l canc' k l' -> Forall (fun c => P (c_node c)) l -> Forall (fun c => P (c_node c)) l'.
@@ -145,21 +142,23 @@ Proof.
   intros canc l canc' k l' H. unfold nodes_nofault, no_afault. induction H; intros HN HA.
   - inversion HN as [|? ? Hnp HN1]; subst. inversion HN1 as [|? ? Hnq HN2]; subst.
     inversion HA as [|? ? Hap HA1]; subst. inversion HA1 as [|? ? Haq HA2]; subst.
-    split; [|reflexivity]. constructor; [|constructor; [|exact HA2]]; simpl.
-    + rewrite H in Hap. simpl in Hap. destruct a; auto.
-    + destruct Hnq as [Hnq _]. specialize (Hnq canc s m).
-      destruct (rr_next (n_on_msg (c_node q) canc s m)); simpl; auto. exfalso. apply Hnq. reflexivity.
-  - inversion HA as [|? ? Hap HA1]; subst. split; [|reflexivity]. constructor; [|constructor]; simpl.
-    rewrite H in Hap. simpl in Hap. destruct a; auto.
-  - inversion HA as [|? ? Hap HA1]; subst. split; [|reflexivity]. constructor; [|exact HA1]; simpl.
-    rewrite H in Hap. simpl in Hap. destruct a; auto.
+    split; [|reflexivity]. constructor; [|constructor; [|exact HA2]]; unfold cell_ok in *; simpl.
+    + rewrite H in Hap. destruct a; auto.
+    + rewrite H0 in Haq. destruct Hnq as [Hnq _]. specialize (Hnq canc s m Haq).
+      destruct (rr_next (n_on_msg (c_node q) canc s m)); simpl; auto.
+  - inversion HA as [|? ? Hap HA1]; subst. split; [|reflexivity]. constructor; [|constructor]; unfold cell_ok in *; simpl.
+    rewrite H in Hap. destruct a; auto.
+  - inversion HA as [|? ? Hap HA1]; subst. split; [|reflexivity]. constructor; [|exact HA1]; unfold cell_ok in *; simpl.
+    rewrite H in Hap. destruct a; auto.
   - inversion HN as [|? ? Hnp HN1]; subst. inversion HN1 as [|? ? Hnq HN2]; subst.
     inversion HA as [|? ? Hap HA1]; subst. inversion HA1 as [|? ? Haq HA2]; subst.
-    split; [|reflexivity]. constructor; [exact Hap|constructor; [|exact HA2]]; simpl.
-    destruct Hnq as [_ Hnq]. rewrite (Hnq canc s). reflexivity.
-  - inversion HA as [|? ? Hap HA1]; subst. split; [|reflexivity]. constructor; [reflexivity|exact HA1].
-  - inversion HA as [|? ? Hap HA1]; subst. split; [|reflexivity]. constructor; [reflexivity|exact HA1].
-  - exfalso. inversion HA as [|? ? Hap HA1]; subst. rewrite H in Hap. discriminate.
+    split; [|reflexivity]. constructor; [exact Hap|constructor; [|exact HA2]]; unfold cell_ok in *; simpl.
+    rewrite H0 in Haq. destruct Hnq as [_ Hnq]. rewrite (Hnq canc s Haq). exact I.
+  - inversion HA as [|? ? Hap HA1]; subst. split; [|reflexivity]. constructor; [|exact HA1].
+    unfold cell_ok in *; simpl. rewrite H in Hap. exact Hap.
+  - inversion HA as [|? ? Hap HA1]; subst. split; [|reflexivity]. constructor; [|exact HA1].
+    unfold cell_ok; simpl. exact I.
+  - exfalso. inversion HA as [|? ? Hap HA1]; subst. unfold cell_ok in Hap. rewrite H in Hap. exact Hap.
   - inversion HN as [|? ? Hnp HN1]; subst. inversion HA as [|? ? Hap HA1]; subst.
     destruct (IHlstep HN1 HA1) as [IH1 IH2]. split; [|exact IH2]. constructor; auto.
 Qed.
@@ -260,8 +259,6 @@ Proof.
   apply IH; auto. eapply (nodes_pred_step (fun n => nofault_node n)); eauto.
 Qed.
 
-Definition fresh_stage (c : cellT) : Prop := exiting_nodrain (c_st c) = false /\ has_afault (c_st c) = false.
-
 Lemma chain_ok_fresh : forall (p : cellT) (l : list cellT), Forall fresh_stage l -> chain_ok (p :: l).
 Proof.
   intros p l. revert p. induction l as [|q l IH]; intros p HF; simpl; [auto|].
@@ -293,8 +290,8 @@ Proof.
   intros c Hst.
   assert (Hnf : crashed c = false /\ nodes_nofault (cells c) /\ no_afault (cells c)).
   { eapply nofault_star; eauto.
-    - constructor; [|exact HN]. simpl. split; intros; [discriminate|reflexivity].
-    - constructor; [reflexivity|]. eapply Forall_impl; [|exact HF]. intros a [_ Ha]. exact Ha. }
+    - constructor; [|exact HN]. simpl. split; intros; reflexivity.
+    - constructor; [exact I|]. eapply Forall_impl; [|exact HF]. intros a [_ Ha]. exact Ha. }
   destruct Hnf as [Hk _]. split; [exact Hk|]. intros HS.
   destruct (good_chain_no_leak c0 c (init_inv rows stages HG HF) Hst HS) as [Hc|Hd]; [congruence|exact Hd].
 Qed.
